@@ -408,3 +408,65 @@ func HTypedScript() {
 	}
 	nd.Reach("end")
 }
+
+// HListpairsScript: a struct with the listpairs representation built at representation level,
+// pair by pair; after any pair, a pair naming an already assembled field is begun: its name is
+// rejected when it is supplied, the pair is abandoned there, and the assembler stays usable —
+// the remaining pairs are accepted and the node is as if the rejected pair had never been offered.
+func HListpairsScript() {
+	engine := nd.Choose("engine", 2) // bindnode with the user-supplied Go type (where the family has one) and with the inferred one
+	name := []string{"Pairs", "LeadOptLP"}[nd.Choose("type", 2)]
+	t := schemas.ByName(name)
+	g := &refschema.G{NarrowInts: true}
+	v := g.Gen(t)
+	tree := refschema.Repr(t, v) // a list of [name, value] pairs, absent optionals omitted
+	nb := typed.Proto(engine, name).Repr.NewBuilder()
+	ok := true
+	nd.NoPanic("script", func() {
+		la, err := nb.BeginList(int64(len(tree.L)))
+		nd.Assert(err == nil, "BeginList")
+		if err != nil {
+			ok = false
+			return
+		}
+		injectAfter := nd.Choose("injectafter", len(tree.L)+1) // == len: no injection
+		for i, pr := range tree.L {
+			pa, err := la.AssembleValue().BeginList(2)
+			nd.Assert(err == nil, "a pair can be begun")
+			if err != nil {
+				ok = false
+				return
+			}
+			e1 := pa.AssembleValue().AssignString(pr.L[0].S)
+			nd.Assert(e1 == nil, "the name of a field not yet assembled is accepted")
+			if e1 != nil {
+				ok = false
+				return
+			}
+			nd.Assert(typed.Assign(pa.AssembleValue(), pr.L[1]) == nil, "its value is accepted")
+			nd.Assert(pa.Finish() == nil, "the pair finishes")
+			if i == injectAfter {
+				rep := tree.L[nd.Choose("repeat", i+1)].L[0].S
+				pb, err := la.AssembleValue().BeginList(2)
+				nd.Assert(err == nil, "a further pair can be begun")
+				if err != nil {
+					ok = false
+					return
+				}
+				e2 := pb.AssembleValue().AssignString(rep)
+				nd.Assert(e2 != nil, "a repeated field name is rejected when the name is supplied")
+				nd.Reach("rejected")
+			}
+		}
+		nd.Assert(la.Finish() == nil, "Finish succeeds after a rejected repeat")
+	})
+	if !ok {
+		return
+	}
+	var n datamodel.Node
+	nd.NoPanic("Build", func() { n = nb.Build() })
+	if n != nil {
+		nd.Assert(refval.Equal(refval.Of(n), v), "the node holds exactly the accepted pairs: the rejected pair left no visible side effect")
+	}
+	nd.Reach("end")
+}
